@@ -381,6 +381,7 @@ def run(run):
     s.add(S.C.cons)
     s.add(S.C.dom)
     run.witness('wiring constraint set satisfiable', s.check() == z3.sat)
+    rep.selfcheck(PROP, [{'check': chk, 'point': {}, 'params': {'wa': wa, 'cfg': ci}} for chk in ('propagation', 'init', 'result') for wa in (True, False) for ci in range(len(MODEL_CFGS))])
     from .c05 import _mut_method
     for name, sec, spec, ci in WIRING_CANARIES:
         try:
